@@ -6,7 +6,7 @@ and fails with the change. Writes /verif/seeded/<name>/{patch.diff,demo files,me
 import subprocess, sys, os, json, shutil, re
 name, prop, src = sys.argv[1:4]; demos = [d.split(":") for d in sys.argv[4:]]
 env = dict(os.environ, GOFLAGS="-mod=mod", GOPROXY="off", GOSUMDB="off", GOTOOLCHAIN="local")
-def sh(cmd, cwd=None): return subprocess.run(cmd, shell=True, cwd=cwd, env=env, capture_output=True, text=True)
+def sh(cmd, cwd=None): return subprocess.run(cmd, shell=True, cwd=cwd, env=env, capture_output=True, text=True, errors='replace')
 wt = "/tmp/seedverify_" + name
 sh(f"git -C /repo worktree remove --force {wt}"); shutil.rmtree(wt, ignore_errors=True)
 r = sh(f"git -C /repo worktree add --detach {wt} HEAD"); assert r.returncode == 0, r.stderr
